@@ -6,13 +6,13 @@ from harness import core, htmlnorm, treegen, trees, xdoc
 
 GEN = ['gen_tables', 'gen_regex', 'gen_config', 'gen_escapes']
 THEOREMS = ['C03_fragment_parses', 'C03_fragment_token_tree', 'C03_fragment_hypotheses', 'C03_fragment_fuel_suffices', 'C03_fragment_document',
-            'C03_fragment_html', 'C03_fragment_markdown_html', 'C03_fragment_html_instance', 'C03_outline_lists', 'C03_outline_html', 'C03_outline_instance',
+            'C03_fragment_html', 'C03_fragment_markdown_html', 'C03_fragment_html_instance', 'C03_fragment_paragraph_lines_instance', 'C03_fragment_headings_instance', 'C03_outline_lists', 'C03_outline_html', 'C03_outline_instance',
             'C03_fragment_document_markdown', 'C03_fragment_document_configs', 'C03_bounded_trees', 'C03_family_is_not_vacuous']
 TRUSTED = ['harness/treegen.py: the tree grammar, the speller (every free choice drawn and counted) and the direct HTML writer - the independent oracle; '
            'harness/htmlnorm.py: CommonMark\'s test normalisation',
            'Spec/Spell.v: the Coq twin of the grammar for the kernel sweep (independent of the parser model)',
            'the pipeline model (tied by X-doc on the generated texts); vm_compute for the sweep']
-ASSUMPTIONS = ['unbounded theorem on a fragment: one-line plain paragraphs, fenced code blocks, quotes and single-item lists (all markers, padding 1-4), any size and depth, '
+ASSUMPTIONS = ['unbounded theorem on a fragment: plain paragraphs of one or more lines, ATX headings, fenced code blocks, quotes and single-item lists (all markers, padding 1-4), any size and depth, '
                'two lists never adjacent siblings: the block tokenizer returns exactly the pre-token tree written from the tree (C03_fragment_parses), and Document(lines) - with the fuel it really gives, proved sufficient - holds exactly the token tree written from the tree under every renderer\'s token sets (C03_fragment_document, _markdown), and the HTML renderer model writes for it exactly the HTML written directly from the tree, also when the text is one string (C03_fragment_html, C03_fragment_markdown_html); the fragment '
                'stream runs the same trees on the implementation',
                'PARTIAL beyond the fragment: in the kernel the HTML statement is bounded to the family stated in C03_bounded_trees; the full grammar is sampled on the implementation',
@@ -67,6 +67,8 @@ def worker(args):
 
 FRAG_WORDS = ['alpha', 'b', 'Zed', 'x1', 'end.', 'q)', '(r', 'a-b', 'c+d', 'e=f', '#g', 'h%', '@i', 'j?', 'k,', '"l"', "m'", 'n:', 'o;', '}', '^', '/p', '2.5', '-', '+', '=', '>', '#', '1.', '7)']
 FRAG_FIRST = [w for w in FRAG_WORDS if w[0] not in '#*+-0123456789<>[_`~']
+FRAG_CONT = [w for w in FRAG_FIRST if w[0] != '=']
+FRAG_HEAD = [w for w in FRAG_WORDS if '#' not in w]
 
 
 FRAG_CODE = ['code', '  x = 1', '', '# not a heading', '- not a list', '> not a quote', '    deep', '*a*', '<b>', '| a |', '[x]: /y', 'a  b  ']
@@ -79,7 +81,13 @@ def frag_tree(rng, depth):
             ch = rng.choice('`~')
             body = [l for l in (rng.choice(FRAG_CODE) for _ in range(rng.randint(0, 4))) if not l.lstrip(' ').startswith(ch) and (l == '' or l.strip(' '))]
             return ('f', ch * rng.randint(3, 5), body)
-        return ('p', ' '.join([rng.choice(FRAG_FIRST)] + [rng.choice(FRAG_WORDS) for _ in range(rng.randint(0, 4))]))
+        if rng.random() < 0.2:                               # an ATX heading: title without '#', not beginning or ending with white space
+            title = ' '.join(rng.choice(FRAG_HEAD) for _ in range(rng.randint(1, 4)))
+            return ('h', rng.randint(1, 6), title)
+        lines = [' '.join([rng.choice(FRAG_FIRST)] + [rng.choice(FRAG_WORDS) for _ in range(rng.randint(0, 4))])]
+        while rng.random() < 0.35 and len(lines) < 4:       # continuation lines: not beginning with '=' either (setext underline)
+            lines.append(' '.join([rng.choice(FRAG_CONT)] + [rng.choice(FRAG_WORDS) for _ in range(rng.randint(0, 4))]))
+        return ('p', lines)
     kids = [frag_tree(rng, depth - 1) for _ in range(rng.randint(1, 3))]
     for i in range(1, len(kids)):                                   # two lists are never neighbours
         if kids[i][0] == 'i' and kids[i - 1][0] == 'i':
@@ -92,7 +100,9 @@ def frag_tree(rng, depth):
 
 def frag_spell(t):
     if t[0] == 'p':
-        return [t[1]]
+        return list(t[1])
+    if t[0] == 'h':
+        return ['#' * t[1] + ' ' + t[2]]
     if t[0] == 'f':
         return [t[1]] + t[2] + [t[1]]
     kids = t[-1]
@@ -110,7 +120,14 @@ def frag_spell(t):
 def frag_expect(t, ln):
     """(dumped tree, line numbers in pre-order)"""
     if t[0] == 'p':
-        return [trees.TAGS['Paragraph'], [[0, t[1]]]], [ln]
+        ch = []
+        for i, l in enumerate(t[1]):
+            if i:
+                ch.append([trees.TAGS['LineBreak'], '', True])
+            ch.append([0, l])
+        return [trees.TAGS['Paragraph'], ch], [ln]
+    if t[0] == 'h':
+        return [trees.TAGS['Heading'], t[1], '', [[0, t[2]]]], [ln]
     if t[0] == 'f':
         return [trees.TAGS['CodeFence'], 0, t[1], '', '', ''.join(l + '\n' for l in t[2])], [ln]
     kids = t[-1]
@@ -132,7 +149,10 @@ def frag_html(t, tight):
     """html_f of Proofs/FragmentHtml.v: the HTML written directly from a fragment tree"""
     esc = lambda x: x.replace('&', '&amp;').replace('<', '&lt;').replace('>', '&gt;')
     if t[0] == 'p':
-        return esc(t[1]) if tight else '<p>' + esc(t[1]) + '</p>'
+        inner = '\n'.join(esc(l) for l in t[1])
+        return inner if tight else '<p>' + inner + '</p>'
+    if t[0] == 'h':
+        return '<h%d>%s</h%d>' % (t[1], esc(t[2]), t[1])
     if t[0] == 'f':
         return '<pre><code>' + esc(''.join(l + '\n' for l in t[2])) + '</code></pre>'
     kids = t[-1]
